@@ -4,6 +4,7 @@ import (
 	"go/parser"
 	"go/token"
 	"os"
+	"os/exec"
 	"path/filepath"
 	"strings"
 	"testing"
@@ -88,6 +89,90 @@ var same = []pair{
 	{"rollback result only logged", "D",
 		`func D(a *Args, idx int) error { delErr := CmdDel(a, idx); glog.Warningf("rollback %v", delErr); return fmt.Errorf("fail") }`,
 		`func D(a *Args, idx int) error { _ = CmdDel(a, idx); return errors.New("failed") }`},
+}
+
+// second batch (H29, H30, H31)
+var same2 = []pair{
+	{"H29: call result hoisted into a local used once in the next statement", "A",
+		`func A(cmdArgs *Args, infos []*Info) { for _, n := range infos { cmdArgs.Args = strings.TrimRight(fmt.Sprintf("%s;%s", cmdArgs.Args, Build(n.Args)), ";"); run(n) } }`,
+		`func A(cmdArgs *Args, infos []*Info) { for _, n := range infos { extra := Build(n.Args); cmdArgs.Args = strings.TrimRight(cmdArgs.Args+";"+extra, ";"); run(n) } }`},
+	{"H30: if len > 0 { …; return E }; return nil  =  guard if len == 0 { return nil }; …; shadowing err renamed", "D",
+		`func D(id string, xs []*I) error { var errs []string; var fails []*I
+			for _, x := range xs { err := del(x); if err != nil { errs = append(errs, err.Error()); fails = append(fails, x) } }
+			if len(errs) > 0 { rev(fails); if err := save(id, fails); err != nil { glog.Warningf("%v", err) }; return fmt.Errorf(strings.Join(errs, "/")) }
+			return nil }`,
+		`func D(id string, xs []*I) error { var errs []string; var fails []*I
+			for _, x := range xs { delErr := del(x); if delErr != nil { errs = append(errs, delErr.Error()); fails = append(fails, x) } }
+			if len(errs) == 0 { return nil }
+			rev(fails); if err := save(id, fails); err != nil { glog.Warningf("%v", err) }
+			return fmt.Errorf(strings.Join(errs, "/")) }`},
+	{"H31: named condition", "R",
+		`func R(pod *Pod) int { if pod.Annotations == nil || pod.Annotations[Key] == "" { return dflt(&pod.Spec) }; return parse(pod) }`,
+		`func R(pod *Pod) int { none := pod.Annotations == nil || pod.Annotations[Key] == ""; if none { return dflt(&pod.Spec) }; return parse(pod) }`},
+	{"H31: range over pointer elements = index loop writing through the element", "X",
+		`func X(ext map[string]string) []*Info { var infos []*Info; infos = fill(infos); for i := range infos { for k, v := range ext { infos[i].Args[k] = string(v) } }; return infos }`,
+		`func X(ext map[string]string) []*Info { var infos []*Info; infos = fill(infos); for _, info := range infos { for k, v := range ext { info.Args[k] = string(v) } }; return infos }`},
+	{"len(x) >= 1 = len(x) != 0", "L", `func L(x []int) bool { return len(x) >= 1 }`, `func L(x []int) bool { return len(x) != 0 }`},
+}
+
+var differ2 = []pair{
+	{"hoisted call with a side-effecting statement in between", "A",
+		`func A(a *Args, n *Info) { a.Args = a.Args + ";" + Build(n.Args) }`,
+		`func A(a *Args, n *Info) { extra := Build(n.Args); reset(a); a.Args = a.Args + ";" + extra }`},
+	{"index loop over VALUE elements written through is not a value loop", "X",
+		`func X(ext map[string]string) []Info { var infos []Info; infos = fill(infos); for i := range infos { infos[i].Name = "x" }; return infos }`,
+		`func X(ext map[string]string) []Info { var infos []Info; infos = fill(infos); for _, info := range infos { info.Name = "x" }; return infos }`},
+	{"named condition negated at the use", "R",
+		`func R(p *Pod) int { none := p.A == nil; if none { return 1 }; return 2 }`,
+		`func R(p *Pod) int { none := p.A == nil; if !none { return 1 }; return 2 }`},
+	{"guard with the wrong polarity", "D", `func D(e []string) error { if len(e) == 0 { return nil }; return fmt.Errorf("x") }`, `func D(e []string) error { if len(e) > 0 { return nil }; return fmt.Errorf("x") }`},
+}
+
+func TestNormaliseSecondBatch(t *testing.T) {
+	for _, p := range same2 {
+		if a, b := canon(t, p.a, p.fn), canon(t, p.b, p.fn); a != b {
+			t.Errorf("%s: canonical trees differ\n a: %s\n b: %s", p.what, a, b)
+		}
+	}
+	for _, p := range differ2 {
+		if a, b := canon(t, p.a, p.fn), canon(t, p.b, p.fn); a == b {
+			t.Errorf("%s: canonical trees coincide: %s", p.what, a)
+		}
+	}
+}
+
+// the behaviour-preserving patches of /verif/harmless that touch the translated files leave the output byte-identical
+func TestHarmlessPatches(t *testing.T) {
+	base, err := genOf(t, nil)
+	if err != nil {
+		t.Fatal(err)
+	}
+	root := os.Getenv("VERIF_ROOT")
+	if root == "" {
+		root = "/verif"
+	}
+	for _, h := range []string{"H12", "H13", "H29", "H30", "H31"} {
+		patch := filepath.Join(root, "harmless", h, "patch.diff")
+		if _, err := os.Stat(patch); err != nil {
+			t.Logf("%s: no patch, skipped", h)
+			continue
+		}
+		dir := mutated(t, nil)
+		cmd := exec.Command("patch", "-p1", "-s", "-i", patch)
+		cmd.Dir = dir
+		if out, err := cmd.CombinedOutput(); err != nil {
+			t.Logf("%s: patch does not apply to the current tree, skipped: %s", h, out)
+			continue
+		}
+		m, err := gen(dir)
+		if err != nil {
+			t.Errorf("%s: translator refuses a behaviour-preserving rewrite:\n%v", h, err)
+			continue
+		}
+		if m["Cni.lean"] != base {
+			t.Errorf("%s: generated facts changed", h)
+		}
+	}
 }
 
 // changes of behaviour: the canonical trees must differ
